@@ -396,7 +396,101 @@ func returnAlts(cd *codec, r *Result, ret *ssa.Return) [][2]string {
 			return out
 		}
 	}
+	// the value is computed by an in-package helper whose returns differ (e.g. by the unsigned flag): one alternative
+	// per success return of the helper, under the caller's conditions plus the helper's own
+	if c, ok := strip(ret.Results[0]).(*ssa.Call); ok {
+		t := newTB(r)
+		t.names[cd.valFn.Params[0]] = "data"
+		t.names[cd.valFn.Params[1]] = "pos"
+		t.names[cd.valFn.Params[4]] = "unsigned"
+		if _, same := valInline(t, r, c, 0, 0); !same {
+			if alts, ok := valInlineAlts(t, r, c, 0, 0); ok {
+				outer := valueCond(cd, r, ret)
+				var out [][2]string
+				for _, a := range alts {
+					cs := []string{}
+					for _, x := range []string{outer, a[0]} {
+						if x != "" {
+							cs = append(cs, strings.Split(x, " && ")...)
+						}
+					}
+					sort.Strings(cs)
+					out = append(out, [2]string{strings.Join(cs, " && "), a[1]})
+				}
+				return out
+			}
+		}
+	}
 	return [][2]string{{valueCond(cd, r, ret), valueTerm(cd, r, ret.Results[0])}}
+}
+
+// valInlineAlts is valInline for a helper whose success returns yield different value terms: it returns one
+// (condition, term) pair per return, the condition being the helper's non-constant dominating tests expressed over the
+// caller's terms. Fails (false) when a term or a condition cannot be expressed.
+func valInlineAlts(t *tb, r *Result, c *ssa.Call, idx int, depth int) ([][2]string, bool) {
+	cc := c.Common()
+	f := cc.StaticCallee()
+	home := c.Parent()
+	if f == nil || f.Blocks == nil || cc.IsInvoke() || f.Pkg == nil || home == nil || enclosingPkg(home) != f.Pkg || f == home || depth >= maxInline || t.depth >= maxInline {
+		return nil, false
+	}
+	bind := map[ssa.Value]constant.Value{}
+	child := newTB(nil)
+	child.depth, child.tables = t.depth+1, t.tables
+	for i, a := range cc.Args {
+		if i >= len(f.Params) {
+			break
+		}
+		p := f.Params[i]
+		if l := r.get(a); l.k == cst && !l.nilc && l.tbl == nil && l.v != nil && l.v.Kind() != constant.Unknown {
+			bind[p] = l.v
+		}
+		t.bindArg(child, p, a, func(v ssa.Value) string { return valTerm(t, r, v, depth+1) })
+	}
+	sub := specializeAt(f, bind, t.tables, t.depth+1)
+	child.res = sub
+	errLast := false
+	if res := f.Signature.Results(); res.Len() >= 2 && isErrType(res.At(res.Len()-1).Type()) && idx < res.Len()-1 {
+		errLast = true
+	}
+	var out [][2]string
+	for _, ret := range sub.Returns {
+		if idx >= len(ret.Results) {
+			return nil, false
+		}
+		if errLast && !sub.isNil(ret.Results[len(ret.Results)-1]) {
+			continue
+		}
+		var sv string
+		if isIntegerType(ret.Results[idx].Type()) {
+			sv = child.term(ret.Results[idx]).String()
+		} else {
+			sv = valTerm(child, sub, ret.Results[idx], depth+1)
+		}
+		if strings.Contains(sv, child.cycleMark()) || strings.Contains(sv, "(...)") {
+			return nil, false
+		}
+		var cs []string
+		for _, ce := range dominatingConds(ret.Block()) {
+			if l := sub.get(ce.Cond); l.k == cst {
+				continue
+			}
+			s := condTerm(child, ce.Cond)
+			if strings.Contains(s, "?bool") || strings.Contains(s, "(...)") || strings.Contains(s, child.cycleMark()) {
+				return nil, false
+			}
+			if !ce.Val {
+				s = "!" + s
+			}
+			for strings.HasPrefix(s, "!!") {
+				s = s[2:]
+			}
+			cs = append(cs, s)
+		}
+		sort.Strings(cs)
+		out = append(out, [2]string{strings.Join(cs, " && "), sv})
+	}
+	return out, len(out) > 0
 }
 
 func dominatingCondsNonConst(r *Result, b *ssa.BasicBlock) []condEdge {
